@@ -58,19 +58,20 @@ type Frame struct {
 }
 
 type FuncCtx struct {
-	Name     string // pkgpath.Func
-	Short    string
-	Contract *FuncContract
-	NoPanic  bool
-	NoOvf    bool
-	Entry    *State
-	Params   map[string]Value // entry values by name
-	ParamT   map[string]types.Type
-	Results  map[string]Value
-	Props    []string
-	Pkg      *packages.Package
-	counts   map[string]int
-	retCount int
+	Name      string // pkgpath.Func
+	Short     string
+	Contract  *FuncContract
+	NoPanic   bool
+	NoOvf     bool
+	Entry     *State
+	Params    map[string]Value // entry values by name
+	ParamT    map[string]types.Type
+	Results   map[string]Value
+	Props     []string
+	Pkg       *packages.Package
+	counts    map[string]int
+	retCount  int
+	usesLocks bool
 }
 
 type Exec struct {
@@ -104,6 +105,9 @@ type Exec struct {
 	recMemo             map[string]bool
 	closureIDs          map[*ClosureRef]int64
 	concreteSolverCalls int
+	GlobalFacts         []*Term
+	lockRules           []lockRule
+	guardRules          []guardRule
 }
 
 func (x *Exec) fresh(base string) string {
@@ -363,9 +367,14 @@ func (x *Exec) globalValue(fr *Frame, st *State, obj *types.Var) Value {
 			_ = tmp
 			return g
 		})
-		if p, ok := v.(PtrV); ok {
-			// package-level pointers with an initialiser are assumed non-nil
-			_ = p
+		if p, ok := v.(PtrV); ok && x.globalHasInit(obj) {
+			// package-level pointers with an initialiser are non-nil and allocated
+			// (assumes the variable is not reassigned to nil; listed in the evidence)
+			x.GlobalFacts = append(x.GlobalFacts, Gt(p.Addr, IntLit(0)), Select(Var("alloc0", ArrOf(SBool)), p.Addr))
+			x.Trusted["package-level pointer "+obj.Pkg().Name()+"."+obj.Name()+" is initialised at start-up and never nil"] = true
+		}
+		if m, ok := v.(MapV); ok && x.globalHasInit(obj) {
+			x.GlobalFacts = append(x.GlobalFacts, Gt(m.ID, IntLit(0)))
 		}
 	}
 	x.globals[obj] = v
@@ -1320,6 +1329,10 @@ func (x *Exec) selectPath(fr *Frame, st *State, base Value, bt types.Type, index
 			x.nilCheck(fr, st, p, n)
 			stt := x.resolveType(p.Elem).Underlying().(*types.Struct)
 			f := stt.Field(idx)
+			if p.LV != nil {
+				cur = fieldLV{p.LV, f.Name()}.Load(x, st)
+				continue
+			}
 			cur = heapFieldLV{p: p, field: f.Name(), ftype: x.resolveType(f.Type())}.Load(x, st)
 			if pp, ok := cur.(PtrV); ok {
 				x.assumeAllocated(st, pp.Addr)
@@ -1733,4 +1746,28 @@ func (x *Exec) linkLiteralEq(st *State, a, b StrV, eq *Term) {
 		return
 	}
 	st.assumeRaw(Eq(eq, Eq(x.strID(st, a), x.strID(st, b))))
+}
+
+func (x *Exec) globalHasInit(obj *types.Var) bool {
+	pkg := x.L.pkgOf(obj.Pkg().Path())
+	if pkg == nil {
+		return false
+	}
+	for _, f := range pkg.Syntax {
+		for _, d := range f.Decls {
+			gd, ok := d.(*ast.GenDecl)
+			if !ok || gd.Tok != token.VAR {
+				continue
+			}
+			for _, sp := range gd.Specs {
+				vs := sp.(*ast.ValueSpec)
+				for i, n := range vs.Names {
+					if pkg.TypesInfo.Defs[n] == obj && i < len(vs.Values) {
+						return true
+					}
+				}
+			}
+		}
+	}
+	return false
 }
